@@ -27,6 +27,7 @@ type Program struct {
 	Funcs   []*ssa.Function         // every module function with a body, sorted by position
 	Whole   bool
 
+	globalErr map[*ssa.Global]bool
 	funcByKey map[string]*ssa.Function
 	origins   map[*ssa.Function]*Origins
 	NFiles    int
